@@ -113,5 +113,39 @@ func genC14(cw *caseWriter, seed uint64, tier string) {
 			}
 			emitTimeRT(cw, z.name, int64(r.u64()%253402214401))
 		}
+		// the same instant rendered consecutively with different offsets (a rendering must not depend on
+		// what was rendered just before)
+		for _, sec := range []int64{1622541600, 0, 1635640200, 951782400} {
+			for _, off := range []int{7200, 0, -12600, 3600, 7200, 19800, 0} {
+				emitTimeRT(cw, z.name, time.Unix(sec, 0).In(time.FixedZone("", off)).Format(time.RFC3339))
+			}
+		}
+		// column level: date-time strings with explicit offsets through datetime / timestamp / string(time)
+		// columns, incl. both passes of the hour repeated at the end of DST and the skipped hour, with the
+		// explicit offset equal to and different from the process zone's
+		colTexts := []string{"2021-10-31T02:30:00+02:00", "2021-10-31T02:30:00+01:00", "2021-10-31T01:30:00+02:00", "2021-10-31T03:00:00+01:00", "2021-03-28T02:30:00+01:00", "2021-03-28T03:30:00+02:00",
+			"2021-11-07T01:30:00-04:00", "2021-11-07T01:30:00-05:00", "2021-03-14T02:30:00-05:00", "2021-03-14T03:30:00-04:00", "2021-09-24T21:21:00Z", "2021-09-24T21:21:00.999+05:30", "2021-09-24T21:21:00,5-03:00",
+			"0001-01-01T00:00:00Z", "9999-12-31T23:59:59Z", "1969-12-31T23:59:58.500Z", "2300-01-01T00:00:00Z", "1600-02-29T12:00:00+14:00", "2021-06-01T12:00:00+02:00", "2021-06-01T10:00:00Z"}
+		ins := []colDesc{{name: "c", format: "datetime", ty: "none"}, {name: "c", format: "datetime", ty: "time"}, {name: "c", format: "auto", ty: "time"}, {name: "c", format: "string", ty: "time"}}
+		outs := []colDesc{{name: "c", format: "datetime", ty: "none"}, {name: "c", format: "timestamp", ty: "none"}, {name: "c", format: "string", ty: "time"}, {name: "c", format: "datetime", ty: "time"}, {name: "c", format: "timestamp", ty: "i64"}}
+		for _, txt := range colTexts {
+			for _, ci := range ins {
+				for _, co := range outs {
+					emitLine(cw, "C14", []colDesc{ci}, []colDesc{co}, []byte(`{"c":"`+txt+`"}`), true)
+				}
+			}
+		}
+		// several date-time columns in one row: the same instant with different offsets side by side
+		two := []colDesc{{name: "a", format: "datetime", ty: "none"}, {name: "b", format: "datetime", ty: "none"}, {name: "c", format: "datetime", ty: "none"}}
+		for _, l := range []string{`{"a":"2021-06-01T12:00:00+02:00","b":"2021-06-01T10:00:00Z","c":"2021-06-01T15:30:00+05:30"}`,
+			`{"a":"2021-10-31T02:30:00+02:00","b":"2021-10-31T01:30:00+01:00","c":"2021-10-31T00:30:00Z"}`} {
+			emitLine(cw, "C14", two, two, []byte(l), true)
+		}
+		for i := 0; i < n/10; i++ {
+			sec := int64(r.u64()%uint64(253402300800+62135596800)) - 62135596800
+			off := (r.intn(2879) - 1439) * 60
+			txt := time.Unix(sec, 0).In(time.FixedZone("", off)).Format(time.RFC3339)
+			emitLine(cw, "C14", []colDesc{pick(r, ins)}, []colDesc{pick(r, outs)}, []byte(`{"c":"`+txt+`"}`), true)
+		}
 	}
 }
